@@ -83,6 +83,18 @@ def tensor_eq(a, b):
         atol = (3e-6 if a.get("dt") == "f32" else 1e-13) * scale
         return all(float_close(x, y, a.get("dt")) or (math.isfinite(x) and math.isfinite(y) and abs(x - y) <= atol) for x, y in zip(fa, fb))
     da, db = a.get("data") or [], b.get("data") or []
+    if a.get("dt") in ("f32", "f64"):
+        # float tensors in the exact regime: the implementation's values arrive as shortest decimal
+        # representations (4611686018427388000 for 2^62), the model's as exact integers - compare the doubles
+        def feq(x, y):
+            try:
+                fx, fy = to_float(x), to_float(y)
+            except (ValueError, OverflowError):
+                return num_eq(x, y)
+            if fx is None or fy is None:
+                return num_eq(x, y)
+            return fx == fy or (math.isnan(fx) and math.isnan(fy))
+        return len(da) == len(db) and all(feq(x, y) for x, y in zip(da, db))
     return len(da) == len(db) and all(num_eq(x, y) for x, y in zip(da, db))
 
 
@@ -187,14 +199,20 @@ def unary_ref_check(c):
             ref = _f32(ref)
         # absolute slack: proportional to |argument| only for the periodic functions (argument reduction)
         scale = max(1.0, abs(a)) if c["op"] in ("Sin", "Cos", "Tan") and math.isfinite(a) and abs(a) < 1e6 else 1.0
-        # absolute slack only where the function has zeros with ill-conditioned neighbourhoods (periodic functions) or
-        # in float32 (results below the normal range flush); float64 results of the other functions are relative-accurate
-        # however small they are (Sigmoid(-100) = 3.7e-44, not "about 0")
-        abs_ok = c["op"] in ("Sin", "Cos", "Tan") or dt == "f32"
+        # absolute slack only where the function has zeros with ill-conditioned neighbourhoods (periodic functions);
+        # results of the other functions are relative-accurate however small they are (Sigmoid(-100) = 3.7e-44, not
+        # "about 0"; float32 Acos(0.9999) = 1.4e-2 to a few ulp, not to 1e-6 absolute) - float32 results below the
+        # normal range may flush (handled below)
+        abs_ok = c["op"] in ("Sin", "Cos", "Tan")
         ok = float_close(ref, y, dt) or (abs_ok and math.isfinite(ref) and math.isfinite(y) and abs(ref - y) <= (1e-6 if dt == "f32" else 1e-14) * scale)
         if dt == "f32" and not ok and math.isfinite(ref) and math.isfinite(y):
             # results that are tiny or huge in float32 may legitimately flush / saturate by one ulp
             ok = abs(ref - y) <= 2e-5 * max(abs(ref), abs(y)) + 1e-37
+        if dt == "f32" and ok and c["op"] not in ("Sigmoid", "Tanh", "Sin", "Cos", "Tan", "Relu", "Abs") and math.isfinite(ref) and math.isfinite(y):
+            # these are computed in float64 and rounded once: within a few units in the last place of float32
+            # (measured on the pinned tree: 0 ulp against this reference) - a float32-only formula that cancels
+            # near a domain boundary (acos(x) = pi/2 - asin(x) at x -> 1) is tens to thousands of ulp off
+            ok = abs(ref - y) <= 5e-7 * abs(ref) + 3e-45
         if c["op"] == "Abs":
             ok = float_same(ref, y)      # exact, including Abs(-0) = +0
         if not ok:
@@ -208,7 +226,8 @@ SOFTMAX_FAR = [False]
 def softmax_props(c):
     """C09 softmax clause, checked on the implementation's output alone: along the requested axis every
     Softmax slice is non-negative and sums to 1, LogSoftmax is its logarithm, finite inputs give finite
-    results; off the axis nothing is mixed (lanes are independent: checked by the model comparison)"""
+    results, the order of the lane is preserved; off the axis nothing is mixed (lanes are independent:
+    checked by the model comparison). Theorems/C09b proves these of the real-valued Softmax / LogSoftmax."""
     x = c["inputs"][0]
     out = c["impl"]["outs"][0]
     shape = x["shape"]
@@ -249,6 +268,14 @@ def softmax_props(c):
                     return "violates", f"LogSoftmax not finite / positive for finite input {lane_x[:4]} -> {lane[:4]}"
                 if abs(sum(math.exp(min(v, 0.0)) for v in lane) - 1) > tol:
                     return "violates", f"exp(LogSoftmax) slice sums to {sum(math.exp(v) for v in lane)}"
+            # order preserved along the lane (Theorems/C09b softmaxSpec_mono): a larger input never gets a
+            # smaller result, up to rounding
+            if all(math.isfinite(v) for v in lane):
+                order = sorted(range(n), key=lambda k: lane_x[k])
+                for a, b in zip(order, order[1:]):
+                    slack = tol * max(1.0, abs(lane[a]), abs(lane[b]))
+                    if lane_x[a] < lane_x[b] and lane[a] > lane[b] + slack:
+                        return "violates", f"{c['op']} does not preserve the order of the lane: x {lane_x[a]} < {lane_x[b]} but y {lane[a]} > {lane[b]}"
     return "holds", ""
 
 
@@ -318,7 +345,8 @@ def judge_op(c):
         return J(corr=corr, verdict=verdict, tag="instance_reuse." + str(c.get("op")), what=what, key=key)
     if verdict == "violates" and c.get("op") in ("Softmax", "LogSoftmax") and impl["status"] == "ok" and not guard:
         # finer tags: the recorded first-element-anchor finding only ever shows as a non-finite result
-        sub = "not_finite_for_finite_input" if ("not finite" in what) else ("slice_sum" if "sums to" in what else None)
+        sub = "not_finite_for_finite_input" if ("not finite" in what) else ("slice_sum" if "sums to" in what else
+              ("order" if "preserve the order" in what else None))
         if sub and SOFTMAX_FAR[0]:
             sub = "first_element_far_from_lane_maximum"
         if sub:
